@@ -15,6 +15,7 @@ import QV.Proofs.NameDecode
 import QV.Proofs.NameRoundTrip
 import QV.Proofs.FinishTsigOwner
 import QV.Proofs.WriterSegment
+import QV.Proofs.WriterScratch
 
 namespace QV.C13
 open QV QV.Writer QV.ServerSafety
@@ -206,6 +207,26 @@ theorem C13_srv_and_ch_a_uncompressible :
 theorem C13_unknown_types_verbatim (cls ty : Nat)
     (h : ∀ a ∈ Gen.rdataComponentsArms, a.1.contains ty = false) : componentTypes cls ty = some [] :=
   componentTypes_unknown cls ty h
+
+/-! ## the scan does not read scratch space
+
+  `C13_scan_reads_only_below_cursor`: "octets at or above the cursor are scratch space that no later
+  read depends on" (docstring of `Same`), for the one reader of the buffer. With valid prior names
+  (`PriorOK`: each anchor points at a name stored below the cursor — what `WInv` gives for `qname`,
+  `most_recent_owner`, `most_recent_name_in_rdata`), `compress_decision` computes the same decision
+  on two buffers of equal size that agree below the cursor: it reads only length octets, label
+  octets and pointers of stored names. (`QV.Proofs.WriterScratch`, where the header calls `set_aa`,
+  `set_rcode` are also shown independent of scratch space: `scratch_setAa`, `scratch_setRcode`, and
+  the scan lemma also with a two-octet hole below the cursor that no name overlaps — the reserved
+  RDLENGTH octets: `compressDecision_congr_gap`. The
+  same statement for whole `add_*_rr` / `add_*_rrset` calls — all writes threaded through, including
+  the two RDLENGTH octets that are reserved before and written after the RDATA — is not proved.) -/
+theorem C13_scan_reads_only_below_cursor {G : Nat → Prop} {oct oct' : Bytes} {cur : Nat} {mode : CMode}
+    {a b : Option Prior} {n : WName}
+    (ha : ∀ p, a = some p → PriorOK G oct cur p) (hb : ∀ p, b = some p → PriorOK G oct cur p)
+    (hag : ∀ i, i < cur → oct'[i]? = oct[i]?) (hsz : oct'.size = oct.size) :
+    compressDecision oct' mode a b n = compressDecision oct mode a b n :=
+  compressDecision_congr ha hb hag hsz
 
 /-! ## the audit of the independent decoder
 
